@@ -118,6 +118,7 @@ NormT(T) ==
                         [i \in DOMAIN T[4] |-> NormCfgOpt(T[4][i])]>>
     [] T[1] = "ntuple" -> <<"ntuple", T[2], [i \in DOMAIN T[3] |-> <<T[3][i][1], NormT(T[3][i][2]), NormD(T[3][i][3])>>]>>
     [] T[1] = "tdict"  -> <<"tdict", T[2], [i \in DOMAIN T[3] |-> <<T[3][i][1], NormT(T[3][i][2]), T[3][i][3]>>]>>
+    [] T[1] = "annotated" /\ Len(T) >= 3 -> <<"annotated", NormT(T[2]), T[3]>>       \* Annotated[X, marker]: the marker makes it a type KEY of its own
     [] T[1] \in {"list", "deque", "seq", "mseq", "vtuple", "opt", "set", "frozenset", "aset", "counter", "final", "annotated"} ->
          <<T[1], NormT(T[2])>>
     [] T[1] \in {"dict", "odict", "ddict", "mapping", "mmapping", "mproxy", "chainmap"} -> <<T[1], NormT(T[2]), NormT(T[3])>>
